@@ -32,9 +32,12 @@ P = dict(
           "the permitted size; the read-only two-string functions (strcmp, strncmp, strspn, strcspn, strpbrk, strstr and wcs* twins) additionally "
           "with ALIASING arguments: both pointers into one block - the identical pointer, and the second (or first) argument a suffix of the "
           "other at every offset, strncmp with every count (prefix via count) - etl and glibc called with the same two pointers; "
+          "strncmp/strncat (and wcs twins, also aliased) additionally with counts far beyond the objects (2*size, PTRDIFF_MAX, SIZE_MAX/2+1, "
+          "SIZE_MAX-1, SIZE_MAX; wide also these divided by sizeof(wchar_t)) - the count only limits, the terminator decides; "
           "then seeded random strings up to length 64. mem*/wmem*: memmove (and memcpy where disjoint) for every "
           "(src offset, dst offset, n) in a 12-element arena x 3 content patterns, memset for every (offset, n) x 5-6 values, memcmp for every "
-          "pair of blocks of length <= 4/5 over {a,b,0xE9,0} x every n, memchr for every block x n x character, n = 0 with one-past pointers, memcmp with both pointers into one block (identical, "
+          "pair of blocks of length <= 4/5 over {a,b,0xE9,0} x every n, memchr for every block x n x character, n = 0 with one-past pointers, memchr/wmemchr with the character present and a count beyond the exact-size block "
+          "(size+1, 2*size, PTRDIFF_MAX, SIZE_MAX/2+1, SIZE_MAX-1, SIZE_MAX; wide also divided by sizeof(wchar_t): C11 7.24.5.1 sequential-read rule), memcmp with both pointers into one block (identical, "
           "overlapping and disjoint ranges, every (i, j, n)); "
           "then seeded random blocks up to 96 elements. cstdlib: all pairs of a 31-43 value boundary grid per type (C's undefined points "
           "excluded) plus seeded random operands. One evaluation = one etl call compared with the glibc call on an identical image. "
